@@ -205,3 +205,27 @@ def _p5s(case):
 @predicate("leftover_round_with_unequal_source_counts.nonuniform")
 def _p5(case, failure):
     return leftover_round_with_unequal_source_counts(case) and _bucket(failure) == "nonuniform"
+
+
+def impossible_through_nested_derivation(spec):
+    """a crossing contains a within-trial derived factor that has a derived argument, and some crossing combination is
+    impossible (the library judges impossibility one derivation level deep)"""
+    if not _is_spec(spec) or not crossed_derived_level_impossible(spec):
+        return False
+    dm = S.derived_by_name(spec)
+    for b in S.leaf_blocks(spec["block"]):
+        for c in S.block_crossings(b):
+            for f in c:
+                if f in dm and any(a in dm for a in dm[f]["args"]):
+                    return True
+    return False
+
+
+@predicate("impossible_through_nested_derivation.shape")
+def _p6s(case):
+    return impossible_through_nested_derivation(case)
+
+
+@predicate("impossible_through_nested_derivation.trial_count")
+def _p6(case, failure):
+    return impossible_through_nested_derivation(case) and _bucket(failure).startswith("trial-count")
